@@ -28,8 +28,11 @@
 (* anything else that is due, shifting the base trace of that side - is     *)
 (* modelled in both modes. The order among same-time, same-priority candidates is         *)
 (* nondeterministic. `Variant`: "F7" bypass     *)
-(* flag overwritten, "F8" zero-duration UpdateTimer dropped; zero-duration  *)
-(* blocking (F6, known finding) is modelled as coded.                       *)
+(* flag overwritten, "F8" zero-duration UpdateTimer dropped, "F6" blocking   *)
+(* of zero length as it was coded before the repair (not set when no         *)
+(* blocking is active; BlockingEnd returned ahead of the BlockingBegin of    *)
+(* the same instant). As repaired: an expiry gives way to the BlockingBegin  *)
+(* events of its side that are queued for that instant.                      *)
 (***************************************************************************)
 EXTENDS Integers, Sequences, FiniteSets, TLC
 
@@ -149,6 +152,12 @@ QueueCands(Z) == QueueCandsAt(Z, QT(Z))
 BlkSideAt(Z, bt) == IF 2 \in BlkCands(Z) /\ Z.sd[2].blk.until = bt THEN 2 ELSE 1
 BlkSide(Z) == BlkSideAt(Z, BT(Z))
 
+\* blocking of side s expires at bt while a BlockingBegin of that side is still queued for that
+\* instant (blocking of zero length): that BlockingBegin is processed first (at bt, the blocking
+\* still in force), the expiry follows with the next pick
+BeginsDue(Z, s, bt) == {x \in Z.sd[s].q : x.e = "BlockingBegin" /\ x.t <= AtLeastNow(Z, bt)}
+BlkDeferred(Z, s, bt) == "F6" \notin Variant /\ BeginsDue(Z, s, bt) # {}
+
 \* Oracle(Z, s): the set of functions machine -> action the framework of side s may return
 ZChoices(Z, Oracle(_, _)) ==
   LET P == Times(Z) IN
@@ -157,7 +166,10 @@ ZChoices(Z, Oracle(_, _)) ==
   ELSE IF PAggFirst(P) THEN
          {Choice("aggpop", x.s, x.id, NoEv, <<>>) : x \in {y \in Z.pending : AtLeastNow(Z, y.t) = P.nt}}
   ELSE IF PBlkFirst(P) THEN
-         {Choice("blk", BlkSideAt(Z, P.bt), 0, NoEv, f) : f \in Oracle(Z, BlkSideAt(Z, P.bt))}
+         IF BlkDeferred(Z, BlkSideAt(Z, P.bt), P.bt)
+         THEN UNION {{Choice("queue", BlkSideAt(Z, P.bt), 0, x, f) : f \in Oracle(Z, BlkSideAt(Z, P.bt))} :
+                       x \in BeginsDue(Z, BlkSideAt(Z, P.bt), P.bt)}
+         ELSE {Choice("blk", BlkSideAt(Z, P.bt), 0, NoEv, f) : f \in Oracle(Z, BlkSideAt(Z, P.bt))}
   ELSE IF PQueueNext(P) THEN
          UNION {{Choice("queue", c[1], 0, c[2], f) : f \in Oracle(Z, c[1])} : c \in QueueCandsAt(Z, P.qt)}
   ELSE IF PTimerNext(P) THEN
@@ -299,7 +311,7 @@ ZStep(Z, c) ==
                lines |-> <<FiredLine(IsC(s), m, t, "action")>>]
          ELSE LET end == t + a.duration
                   cur == IF Z.sd[s].blk.on THEN Z.sd[s].blk.until ELSE t
-                  upd == a.replace \/ end > cur
+                  upd == a.replace \/ end > cur \/ ("F6" \notin Variant /\ ~Z.sd[s].blk.on)
                   byp == IF ~upd THEN Z.sd[s].byp
                          ELSE IF "F7" \in Variant \/ ~Z.sd[s].blk.on THEN a.bypass
                          ELSE Z.sd[s].byp /\ a.bypass
